@@ -27,3 +27,12 @@ Theorem C20_log_sites_reviewed :
   forall s, In s log_sites -> exists note, In (s, note) log_site_map.
 Proof. exact log_sites_covered. Qed.
 Print Assumptions C20_log_sites_reviewed.
+
+(* ---- tie to the source: the integer literals of the functions this property's model stands for
+   (private constants, bounds, unit factors; the files are SiteMap.files_C20) are today the ones the
+   model was written against. Gen/Sites.v num_literals is regenerated from /repo on every run; a
+   changed, added or removed number in a modelled function breaks this obligation ---- *)
+Require RV.Gen.Sites RV.Model.SiteMap.
+Theorem C20_literals_reviewed : RV.Model.SiteMap.literals_ok RV.Model.SiteMap.files_C20.
+Proof. repeat constructor. Qed.
+Print Assumptions C20_literals_reviewed.
